@@ -4,6 +4,7 @@ mod names;
 mod oracle;
 mod props;
 mod sig;
+mod total;
 mod util;
 
 fn arg(args: &[String], k: &str) -> Option<String> {
@@ -39,6 +40,12 @@ fn main() {
             eprintln!("detect: {} cases, {} disagreements, {} violations, {} contract violations",
                 r["evaluations"], r["disagreements"].as_array().unwrap().len(),
                 r["violations"].as_array().unwrap().len(), r["contract_violations"].as_array().unwrap().len());
+        }
+        "total" => {
+            let n = arg(&args, "--n").and_then(|s| s.parse().ok()).unwrap_or(200);
+            let big = arg(&args, "--big").and_then(|s| s.parse().ok()).unwrap_or(2);
+            let r = total::run(seed, n, big, &out);
+            eprintln!("total: {} evaluations, {} violations", r["evaluations"], r["violations"].as_array().unwrap().len());
         }
         _ => {
             eprintln!("usage: verif-harness <names|detect|...> [--seed N] [--out file] ...");
